@@ -87,20 +87,21 @@ type Config struct {
 }
 
 type Sim struct {
-	cfg    Config
-	mu     sync.Mutex
-	gs     []gstate
-	free   []int32
-	nfree  int
-	hi     int // slots ever used
-	tab    []tabEnt
-	tmask  uint64
-	rs     uint64
-	notify chan struct{}
-	rootG  uint64
-	seq    uint64
-	last   int
-	buf    []int
+	cfg     Config
+	mu      sync.Mutex
+	gs      []gstate
+	free    []int32
+	nfree   int
+	hi      int // slots ever used
+	tab     []tabEnt
+	tmask   uint64
+	rs      uint64
+	notify  chan struct{}
+	rootG   uint64
+	seq     uint64
+	last    int
+	lastSeq uint64 // creation sequence number of the goroutine that ran last (slots are reused, sequence numbers are not)
+	buf     []int
 
 	tape    []Draw
 	ntape   int
@@ -857,7 +858,7 @@ func (s *Sim) pick(buf []int) int {
 	// k>0 = the k-th runnable goroutine in creation order
 	lastIdx := -1
 	for i, id := range buf {
-		if id == s.last {
+		if id == s.last && s.gs[id].seq == s.lastSeq {
 			lastIdx = i
 		}
 	}
@@ -998,6 +999,7 @@ func (s *Sim) run(horizon time.Duration) string {
 			s.spinTracing++
 		}
 		s.last = pick
+		s.lastSeq = s.gs[pick].seq
 		s.Steps++
 		s.sinceProg++
 		s.Hash = (s.Hash ^ (s.gs[pick].seq + 1)) * 1099511628211
